@@ -377,6 +377,35 @@ fn obs_case(run: &mut Run, street: usize) {
     }
 }
 
+/// the first `n` items of the real IsomorphismIterator (count + order checksum): the model side runs
+/// the observation-iterator model filtered by the C05 model of `is_canonical`
+fn iso_prefix_case(run: &mut Run, street: usize, n: usize) {
+    let deck = deck_name();
+    let op = format!("iso {deck} {street} {n}");
+    run.evaluations += 1;
+    run.count(&format!("iso-prefix street={street}"));
+    let res = catch(move || {
+        let mut count = 0u64;
+        let mut ck = 0u64;
+        for iso in IsomorphismIterator::from(street_of(street)).take(n) {
+            let ob = Observation::from(iso);
+            count += 1;
+            ck = mix(mix(ck, u64::from(*ob.pocket())), u64::from(*ob.public()));
+        }
+        (count, ck)
+    });
+    match res {
+        None => {
+            run.line(&op, "panic");
+            run.fail("isomorphisms-panic", &op, "an iteration", "panic");
+        }
+        Some((count, ck)) => {
+            run.line(&op, &format!("n={count} ck={ck}"));
+            run.distinct(&("iso-prefix", street, n));
+        }
+    }
+}
+
 fn iso_case(run: &mut Run, street: usize, brute_orbits: bool) {
     let deck = deck_name();
     let op = format!("niso {deck} {street}");
@@ -576,6 +605,20 @@ fn main() {
     for st in [0usize, 1] {
         iso_case(&mut run, st, true);
     }
+    // model-side class lists (C05's is_canonical model inside the iterator model): complete pre-flop,
+    // a prefix of the later streets (the model's canonicity test costs ~60 us per observation)
+    iso_prefix_case(&mut run, 0, 1_000_000);
+    if thorough {
+        iso_prefix_case(&mut run, 1, if is_shortdeck() { 1_000_000 } else { 200_000 });
+        iso_prefix_case(&mut run, 2, 300);
+        if is_shortdeck() {
+            iso_prefix_case(&mut run, 3, 100);
+        }
+    } else {
+        // later streets: before the first canonical pocket the model has to test every board of the
+        // non-canonical pockets (230,300 turn boards per pocket), so the quick tier stops at the flop
+        iso_prefix_case(&mut run, 1, 2_000);
+    }
     for (st, h) in heavy {
         let op = format!("niso {deck} {st}");
         run.evaluations += 1;
@@ -621,7 +664,7 @@ fn main() {
 
     run.exhaustive = false;
     run.rule = format!(
-        "deck={deck}. hands: {} masks leaving 0..12 free cards (random, packed against bit 51, packed at the bottom, alternating, some with junk above bit 51) x k=0..4 as full lists, k=5/6/7 for {n5}/{n6}/{n7} of them (a case costs ~C(52,k) steps whatever the mask); {ncases} random masks leaving 13..52 free cards x random k<=7 and the unmasked deck as count+order checksum; k in {{47..53,63}} (short walks against the 52-bit boundary) as counts. observations: streets {:?} complete (count, order checksum, every item legal and above its predecessor). isomorphism classes: pre-flop and flop by the real IsomorphismIterator (+ turn and river in the thorough tier) against the Burnside polynomial, the published constants, an own orbit enumeration, and pairwise-distinct orbit keys. children: {nchild} random observations per street. distinct = (k, mask) with k >= 1 and at least k free cards, streets, observations.",
+        "deck={deck}. hands: {} masks leaving 0..12 free cards (random, packed against bit 51, packed at the bottom, alternating, some with junk above bit 51) x k=0..4 as full lists, k=5/6/7 for {n5}/{n6}/{n7} of them (a case costs ~C(52,k) steps whatever the mask); {ncases} random masks leaving 13..52 free cards x random k<=7 and the unmasked deck as count+order checksum; k in {{47..53,63}} (short walks against the 52-bit boundary) as counts. observations: streets {:?} complete (count, order checksum, every item legal and above its predecessor). isomorphism classes: model-side lists (iso ops: all pre-flop classes, a prefix of the later streets) and counts; pre-flop and flop by the real IsomorphismIterator (+ turn and river in the thorough tier) against the Burnside polynomial, the published constants, an own orbit enumeration, and pairwise-distinct orbit keys. children: {nchild} random observations per street. distinct = (k, mask) with k >= 1 and at least k free cards, streets, observations.",
         masks.len(), streets);
     run.finish();
 }
